@@ -243,10 +243,10 @@ Definition current : fixes := {| fx_guard := true; fx_tpstr := true; fx_oneline 
 Definition is_break (c : N) : bool := mem_ch c SL_LINE_BREAKS.
 Fixpoint splitlines_aux (s cur : str) (after_cr : bool) : list str :=
   match s with
-  | [] => match cur with [] => [] | _ => [rev cur] end
+  | [] => match cur with [] => [] | _ => [rev_append cur []] end        (* rev cur, in linear time *)
   | c :: r =>
       if after_cr && N.eqb c 10 then splitlines_aux r cur false
-      else if is_break c then rev cur :: splitlines_aux r [] (N.eqb c 13)
+      else if is_break c then rev_append cur [] :: splitlines_aux r [] (N.eqb c 13)
       else splitlines_aux r (c :: cur) false
   end.
 Definition splitlines (s : str) : list str := splitlines_aux s [] false.
